@@ -851,8 +851,8 @@ func posString(prog *ssa.Program, pos token.Pos) string {
 	}
 	p := prog.Fset.Position(pos)
 	f := p.Filename
-	if k := strings.Index(f, "/repo/"); k >= 0 {
-		f = f[k+6:]
+	if k := strings.Index(f, repoDir+"/"); k >= 0 {
+		f = f[k+len(repoDir)+1:]
 	}
 	return fmt.Sprintf("%s:%d", f, p.Line)
 }
